@@ -111,7 +111,10 @@ pub struct S2 {
     opt_more: Option<Vec<String>>,
     #[deb822(serialize_with = ser_yes, deserialize_with = de_yes)]
     enabled: bool,
-    #[deb822(field = "Opt-Enabled", serialize_with = ser_yes, deserialize_with = de_yes)]
+    // the configuration of one field may be spread over several attributes (bool also has default codecs, so dropping
+    // either attribute still compiles and shows as a wrong key or as true/false instead of yes/no)
+    #[deb822(field = "Opt-Enabled")]
+    #[deb822(serialize_with = ser_yes, deserialize_with = de_yes)]
     opt_enabled: Option<bool>,
     #[deb822(field = "Shade", serialize_with = ser_color_upper, deserialize_with = de_color_any_case)]
     shade: Color,
